@@ -118,6 +118,14 @@ class C14(Prop):
                 new = SqliteStorage(testing=not case["testing"])
             else:
                 new = SqliteStorage(testing=case["testing"], filepath=os.path.join(d, "custom.db"))
+            # first what a SECOND connection sees right after the constructor returned (nothing has been read through
+            # the new store yet, so nothing has been flushed on its behalf): the migrated events must already be there
+            fresh = None
+            if case["mode"] == "same":
+                from .. import commitlib
+
+                npath = os.path.join(data_dir, "sqlite" + ("-testing" if case["testing"] else "") + ".v1.db")
+                fresh = {b: len(v["events"]) for b, v in commitlib.second_view(npath).items()}
             store2 = type("S", (), {"st": new})
             new_dump = storelib.dump(store2)
             if second is not None:
@@ -130,7 +138,8 @@ class C14(Prop):
             except Exception:
                 pass
             h1 = file_hash(lpath) if os.path.exists(lpath) else "legacy file is gone"
-            return {"legacy": legacy_dump, "new": new_dump, "legacy_unchanged": h0 == h1, "files": files, "second": second}
+            return {"legacy": legacy_dump, "new": new_dump, "legacy_unchanged": h0 == h1, "files": files, "second": second,
+                    "fresh": fresh}
         finally:
             if old_env is None:
                 os.environ.pop("XDG_DATA_HOME", None)
@@ -169,6 +178,11 @@ class C14(Prop):
             if out["new"]:
                 return f"migration ran although it should not ({case['mode']}): {sorted(out['new'])}"
             return None
+        if out.get("fresh") is not None:
+            want = {b: len(v["events"]) for b, v in out["legacy"].items()}
+            if out["fresh"] != want:
+                return (f"right after the new store was constructed a second connection sees {out['fresh']} events per bucket, "
+                        f"the legacy store holds {want} (migrated events left uncommitted)")
         pairs = [("", out["legacy"], out["new"])]
         if out.get("second"):
             pairs.append(("other profile, migrated second by the same process: ", out["second"]["legacy"], out["second"]["new"]))
